@@ -161,7 +161,8 @@ type c09Env struct {
 	q      *fpgo.BufferedChannelQueue[func()]
 	pool   *worker.DefaultWorkerPool
 	max    int
-	jobs   []*c09Job
+	jobs   []*c09Job // creation order
+	byName map[int]*c09Job
 	cur    int32
 	peak   int32
 	finTot int32
@@ -174,7 +175,7 @@ type c09Env struct {
 }
 
 func c09NewEnv(toks []string, expMs int) *c09Env {
-	e := &c09Env{ctl: newC09Ctl(), max: c09Cfg(toks, "max", 1), async: map[int]chan string{}}
+	e := &c09Env{ctl: newC09Ctl(), max: c09Cfg(toks, "max", 1), async: map[int]chan string{}, byName: map[int]*c09Job{}}
 	e.q = fpgo.NewBufferedChannelQueue[func()](c09Cfg(toks, "c", 1), c09Cfg(toks, "b", 0), 16).
 		SetLoadFromPoolDuration(time.Millisecond / 2)
 	// Start from the zero settings (workerSizeMaximum 0: nothing can be spawned) and set the maximum last, so
@@ -210,10 +211,12 @@ func c09NewEnv(toks []string, expMs int) *c09Env {
 
 // job k of the given kind; slowUs > 0 makes it sleep
 func (e *c09Env) mkJob(k int, kind string, slowUs int) func() {
-	for len(e.jobs) <= k {
-		e.jobs = append(e.jobs, &c09Job{gate: make(chan struct{})})
+	j := &c09Job{gate: make(chan struct{})}
+	idx := len(e.jobs) // the model identifies a job with its creation index
+	e.jobs = append(e.jobs, j)
+	if _, dup := e.byName[k]; !dup {
+		e.byName[k] = j
 	}
-	j := e.jobs[k]
 	return func() {
 		c := atomic.AddInt32(&e.cur, 1)
 		for {
@@ -237,10 +240,10 @@ func (e *c09Env) mkJob(k int, kind string, slowUs int) func() {
 		case 'p':
 			<-j.gate
 			v, _ := strconv.Atoi(kind[1:])
-			panic(k*1000 + v)
+			panic(idx*1000 + v)
 		case 'q':
 			v, _ := strconv.Atoi(kind[1:])
-			panic(k*1000 + v)
+			panic(idx*1000 + v)
 		}
 	}
 }
@@ -395,11 +398,11 @@ func (e *c09Env) op(tok string) string {
 			return fmt.Sprintf("j%d=pending", num(1))
 		}
 	case "r":
-		if k := num(1); k < len(e.jobs) {
+		if j := e.byName[num(1)]; j != nil {
 			select {
-			case <-e.jobs[k].gate:
+			case <-j.gate:
 			default:
-				close(e.jobs[k].gate)
+				close(j.gate)
 			}
 		}
 		return "r" + f[1]
